@@ -12,7 +12,7 @@ def flavours_for(tier):
     fl = os.environ.get("VERIF_FLAVOURS")
     if fl:
         return fl.split(",")
-    return ["sync"]
+    return ["sync", "async-std", "tokio"]
 
 
 def main():
